@@ -194,6 +194,9 @@ def http_patterns(ctx):
 
         @srpc(Unicode, _returns=Integer, _patterns=[HttpPattern('/a+b/<x>')])
         def m11(x): ran.append('m11'); return 1
+
+        @srpc(Unicode, _returns=Integer, _patterns=[HttpPattern('/item/{x}/rev')])
+        def m12(x): ran.append('m12'); return 1
     try:
         w = WsgiApplication(Application([S], 'tns', in_protocol=HttpRpc(), out_protocol=JsonDocument()))
     except Exception as e:
